@@ -1,7 +1,7 @@
 /-
   RapidProofs.TranslatedDataEq — data.go as translated from /repo on every run against the model:
   the two bit streams (`drawBits` = `Src.next`), the recording calls (`record`, `beginGroup`, `endGroup` = the
-  steps of `recGo`), `removeGroup` and `prune` (= `Rec.removeGroup`, `Rec.prune`).
+  steps of `recGo`); `removeGroup` and `prune` (= `Rec.removeGroup`, `Rec.prune`) are in `TranslatedPruneEq`.
 -/
 import RapidModel.Generated.Translated
 import RapidModel.Rec
